@@ -4,6 +4,9 @@ import (
 	"fmt"
 	"sort"
 	"strconv"
+	"strings"
+
+	corev1 "k8s.io/api/core/v1"
 
 	"k8s.io/utils/pointer"
 
@@ -195,6 +198,130 @@ func runFaultDiff(ctx *RunCtx) *Result {
 			} else if view(imA) != view(imB) {
 				hit("C20/jobconfig-status-outcome-differs", fmt.Sprintf("with failures: %s; without: %s", view(imA), view(imB)))
 			}
+		}
+
+		// ---------- job controller ----------
+		{
+			// a Job whose tasks follow a fixed outcome plan (per index and attempt: succeed or
+			// fail); the kubelet advances every live Pod one step per round, whenever it exists
+			m := &mJob{Shape: "count", Count: int64(1 + c.Intn(3)), MaxAttempts: int64(1 + c.Intn(2)), Finalizer: true,
+				Strategy: Pick(c, []string{"", "All", "Any"})}
+			if c.Chance(1, 4) {
+				m = &mJob{Shape: "none", MaxAttempts: int64(1 + c.Intn(3)), Finalizer: true}
+			}
+			m.init()
+			plan := map[string]bool{} // task name -> fails
+			for _, h := range m.Hashes {
+				for r := int64(0); r < m.MaxAttempts; r++ {
+					plan[taskName(h, r)] = c.Chance(1, 3)
+				}
+			}
+			ttl := int64(1000000)
+			if c.Chance(1, 4) {
+				ttl = 60 // finished Jobs are cleaned up within the run
+			}
+			cfgJ := jsCfg{Pending: ip(900), Force: ip(900), TTL: ip(ttl)}
+			run := func(faulty bool, fc *PRNG) (*jsImpl, bool) {
+				now := int64(1700000000)
+				im := newJSImpl(cfgJ, m, now)
+				im.q.Now = im.api.now
+				im.apply(jsOp{Kind: "start"}, m)
+				// the Job's key is worked when the informer handlers or a due timer put it on the queue,
+				// or when the previous pass failed (reconciler.Controller re-adds it: see the recon part)
+				key := "ns/" + jobName
+				// and at every informer resync (10 minutes by default), whose update event enqueues it
+				lastFailed, idle, lastResync := false, 0, now
+				for round := 0; round < 200; round++ {
+					im.apply(jsOp{Kind: "advjob", N: 1000}, m)
+					im.apply(jsOp{Kind: "advpods", N: 1000}, m)
+					if round == 25 {
+						im.api.faults = nil // the failures stop
+					}
+					if faulty && round < 25 && fc.Chance(1, 3) {
+						im.apply(jsOp{Kind: "fault", Fault: Pick(fc, []string{"create-pod", "update-status", "update-status", "update-job", "delete-pod", "delete-job"})}, m)
+					}
+					im.q.FireDue(im.api.now())
+					if im.api.now()-lastResync >= 600 {
+						lastResync = im.api.now()
+						if cj, _ := im.jctx.Informers().Furiko().Execution().V1alpha1().Jobs().Lister().Jobs("ns").Get(jobName); cj != nil {
+							im.q.Add(key)
+						}
+					}
+					worked := false
+					if im.q.HasReady(key) || lastFailed {
+						for im.q.Len() > 0 {
+							k, _ := im.q.Get()
+							im.q.Done(k)
+						}
+						obs := im.apply(jsOp{Kind: "sync"}, m)
+						lastFailed = !obs.OK
+						worked = len(obs.Actions) > 0 || lastFailed
+					}
+					progressed := false
+					for _, pd := range im.api.listPods() {
+						switch {
+						case pd.DeletionTimestamp != nil:
+							im.apply(jsOp{Kind: "kubelet", Name: pd.Name, Step: "terminate"}, m)
+							progressed = true
+						case pd.Spec.NodeName == "" && !im.api.scheduled[pd.Name]:
+							im.apply(jsOp{Kind: "kubelet", Name: pd.Name, Step: "schedule"}, m)
+							progressed = true
+						case pd.Status.Phase == corev1.PodPending || pd.Status.Phase == "":
+							im.apply(jsOp{Kind: "kubelet", Name: pd.Name, Step: "run"}, m)
+							progressed = true
+						case pd.Status.Phase == corev1.PodRunning:
+							step := "succeed"
+							if plan[pd.Name] {
+								step = "fail"
+							}
+							im.apply(jsOp{Kind: "kubelet", Name: pd.Name, Step: step}, m)
+							progressed = true
+						}
+					}
+					im.apply(jsOp{Kind: "clock", T: im.api.now() + 20}, m)
+					if !worked && !progressed && round > 25 && len(im.api.podEv) == 0 && len(im.api.jobEv) == 0 {
+						idle++
+						if idle > 65 { // two resync periods with nothing to do
+							return im, true
+						}
+					} else {
+						idle = 0
+					}
+				}
+				return im, false
+			}
+			imA, okA := run(true, c.Fork())
+			imB, okB := run(false, c.Fork())
+			view := func(im *jsImpl) string {
+				rj := im.api.getJob(jobName)
+				if rj == nil {
+					return "job-gone pods=" + fmt.Sprint(len(im.api.listPods()))
+				}
+				var refs []string
+				for _, r := range rj.Status.Tasks {
+					refs = append(refs, fmt.Sprint(r.Name, r.Status.Result))
+				}
+				sort.Strings(refs)
+				return fmt.Sprint(rj.Status.Phase, refs, len(im.api.listPods()))
+			}
+			js["job_shape"], js["job_plan"] = m, plan
+			if !okB {
+				res.Count("jobctl-fault-free-run-not-quiescent")
+			} else if !okA {
+				hit("C20/job-controller-does-not-quiesce", fmt.Sprintf("after the failures stopped the Job world keeps changing: %s", view(imA)))
+			} else {
+				// when the Job ends early (one index decides the result and the others are killed) the
+				// per-task results depend on timing, which failures legitimately change: compare phases
+				va, vb := view(imA), view(imB)
+				if strings.Contains(va, "Killed") || strings.Contains(vb, "Killed") {
+					va, vb = strings.SplitN(va, "[", 2)[0], strings.SplitN(vb, "[", 2)[0]
+					res.Count("jobctl-compared-phase-only")
+				}
+				if va != vb {
+					hit("C20/job-outcome-differs", fmt.Sprintf("with failures: %s; without: %s", view(imA), view(imB)))
+				}
+			}
+			res.Count("jobctl-final-" + strings.SplitN(strings.SplitN(view(imB), " ", 2)[0], "[", 2)[0])
 		}
 
 		// ---------- admission queue ----------
